@@ -241,7 +241,8 @@ def readSeqTags (parent : Tag) : Nat → M Unit
     let tag ← readTagHeader parent
     if isEndTag tag parent.self then pure ()
     else if tag.t == .start then do
-      let _ ← attrLoop (some parent.parent) (W + 8) tag
+      let len ← (fun st => (.ok st.rest.length, st) : M Nat)
+      let _ ← attrLoop (some parent.parent) (len + 2) tag
       let v ← readTagValue 8 512 0 0
       emit { pt := 2, parent := parent.self, self := parent.parent, val := v }
       readSeqTags parent f
@@ -254,7 +255,8 @@ def readTag : Nat → Tag → M Tag
     let tag ← readTagHeader parent
     if isEndTag tag parent.self then pure tag
     else
-      let tag ← attrLoop none (W + 8) tag
+      let len ← (fun st => (.ok st.rest.length, st) : M Nat)
+      let tag ← attrLoop none (len + 2) tag
       let tag ← (if tag.t == .start then
           (if tag.self == rdfSeq || tag.self == rdfAlt || tag.self == rdfBag then do
             readSeqTags tag f
